@@ -2,6 +2,7 @@ package props
 
 import (
 	"fmt"
+	"strings"
 	"testing"
 
 	"pgregory.net/rapid"
@@ -58,6 +59,12 @@ func labClasses(res *lab.Result) []string {
 	}
 	if len(c.Client) > 0 {
 		cls = append(cls, "client="+c.Client[0].Kind)
+	}
+	for _, e := range res.Events {
+		if e.Kind == lab.EvNote && strings.HasPrefix(e.Info, "ack-send-failed") {
+			cls = append(cls, "ack-send-failed")
+			break
+		}
 	}
 	if res.Wedged {
 		cls = append(cls, "wedged")
